@@ -20,7 +20,9 @@ RULE = ("each case = 3..24 Hypothesis-drawn pairs from vp.gen.sky.pair() (unifor
         "a vectorised body of 60..150 pairs of the same families (and same-lon / same-lat / 170..179 deg pairs "
         "around the large-angle threshold) expanded from a drawn integer with PCG64; units deg/deg, rad/rad, "
         "deg/rad, rad/deg for sphdist, degrees-in/radians-out for gcirc; containers f8/f4 arrays of length 1, 3, "
-        "N, lists, Python and numpy scalars, scalar-against-array; longitude offsets of +-360/720 deg. "
+        "N, lists, Python and numpy scalars, scalar-against-array; longitude offsets of +-360/720 deg; sub-check "
+        "reuse: arrays of 2^16..2^21 (+1..4000) pairs, and a second call with the same array/list objects after "
+        "the caller changed their contents in place. "
         "Non-trivial: the case contains a pair with separation < 1e-3 deg or > 179 deg, a point within 1e-3 deg "
         "of a pole, or a pair whose longitudes straddle 0/360. Distinct = distinct case JSON.")
 ASSUMPTIONS = [
@@ -346,6 +348,85 @@ def check_gcirc_containers(case, ctx):
 
 
 # --------------------------------------------------------------------------------------------
+# long arrays, and the same argument objects used again after the caller changed their contents
+# --------------------------------------------------------------------------------------------
+LONG_SIZES = [2 ** 16, 2 ** 18, 2 ** 20, 2 ** 20, 2 ** 21]
+
+
+@st.composite
+def reuse_cases(draw):
+    case = {"pairs": draw(st.lists(sky.pair(), min_size=3, max_size=12)), "seed": draw(st.integers(0, 2 ** 40)),
+            "nvec": draw(st.sampled_from([60, 100])), "dtype": "f8",
+            "fn": draw(st.sampled_from(["sphdist", "sphdist", "gcirc"])),
+            "kind": draw(st.sampled_from(["mutate-second", "mutate-second", "mutate-first", "mutate-list", "long"]))}
+    case["units"] = "deg/rad" if case["fn"] == "gcirc" else draw(st.sampled_from(UNITS))
+    if case["kind"] == "long":
+        case["ntotal"] = draw(st.sampled_from(LONG_SIZES)) + draw(st.integers(1, 4000))
+    else:
+        # what the caller does to his arrays between the two calls
+        case["change"] = draw(st.sampled_from(["add", "roll", "assign"]))
+        case["delta"] = [draw(st.floats(-170.0, 170.0)), draw(st.floats(-1.0, 1.0))]
+    return case
+
+
+def check_reuse(case, ctx):
+    import esutil.coords as co
+    uin, uout = case["units"].split("/")
+    fn = co.gcirc if case["fn"] == "gcirc" else co.sphdist
+    kw = {} if case["fn"] == "gcirc" else {"units": [uin, uout]}
+    tol = TOL_GC if case["fn"] == "gcirc" else TOL_SPH
+    a1, b1, a2, b2 = _inputs(case, uin)
+    n = a1.size
+    if case["kind"] == "long":
+        nt = case["ntotal"]
+        tr = np.resize(truth(a1, b1, a2, b2, uin, uout), nt)
+        big = [np.resize(v, nt) for v in (a1, b1, a2, b2)]
+        d = must(fn, *big, **kw)
+        _check_values(case["fn"], d, tr, nt, uout, tol, ctx, " (%d pairs)" % nt)
+        ctx.count("pairs", nt)
+        return
+    tr = truth(a1, b1, a2, b2, uin, uout)
+    aslist = case["kind"] == "mutate-list"
+    args = [v.tolist() for v in (a1, b1, a2, b2)] if aslist else [a1, b1, a2, b2]
+    d = must(fn, *args, **kw)
+    _check_values(case["fn"], d, tr, n, uout, tol, ctx)
+    # the caller changes the contents of the arrays he passed (same objects) and asks again
+    which = (0, 1) if case["kind"] == "mutate-first" else (2, 3)
+    scale = 1.0 if uin == "deg" else float(sphere.D2R)
+    dlon, fac = case["delta"][0] * scale, case["delta"][1]
+    lon, lat = np.asarray(args[which[0]], dtype="f8"), np.asarray(args[which[1]], dtype="f8")
+    if case["change"] == "add":
+        newlon, newlat = lon + dlon, lat * fac
+    elif case["change"] == "roll":
+        newlon, newlat = np.roll(lon, 1), np.roll(lat, 1)
+    else:
+        newlon, newlat = lon[::-1].copy(), lat[::-1] * fac
+    if aslist:
+        args[which[0]][:] = newlon.tolist()
+        args[which[1]][:] = newlat.tolist()
+    else:
+        args[which[0]][...] = newlon
+        args[which[1]][...] = newlat
+    cur = [np.asarray(v, dtype="f8") for v in args]
+    tr2 = truth(cur[0], cur[1], cur[2], cur[3], uin, uout)
+    d2 = must(fn, *args, **kw)
+    _check_values(case["fn"], d2, tr2, n, uout, tol, ctx, " (second call, after the caller changed the contents of "
+                  "the %s he passed before)" % ("lists" if aslist else "arrays"))
+    ctx.count("pairs", 2 * n)
+
+
+def classify_reuse(case):
+    labs = ["fn:" + case["fn"], "kind:" + case["kind"], "units:" + case["units"]]
+    if case["kind"] == "long":
+        labs.append("nt:long-array")
+        labs.append("n:%s" % (">2^20" if case["ntotal"] > 2 ** 20 else ">2^16"))
+    else:
+        labs.append("nt:arguments-changed-between-calls")
+        labs.append("change:" + case["change"])
+    return labs
+
+
+# --------------------------------------------------------------------------------------------
 # classification
 # --------------------------------------------------------------------------------------------
 def classify(case):
@@ -396,4 +477,5 @@ SUBCHECKS = [
              journal=False),
     Subcheck("gcirc_containers", lambda: container_cases(True), check_gcirc_containers, classify, quick=1000,
              thorough=10000, journal=False),
+    Subcheck("reuse", reuse_cases, check_reuse, classify_reuse, quick=800, thorough=8000, journal=False),
 ]
